@@ -37,7 +37,7 @@ import (
 
 // Op is one operation of a storage program.
 type Op struct {
-	// Kind: "create", "update", "delete", "refresh", "readUnknown", "reopen".
+	// Kind: "create", "update", "delete", "refresh", "readUnknown", "createFailing", "reopen".
 	Kind string
 	// Slot is the plan slot the operation works on.
 	Slot int
@@ -46,6 +46,9 @@ type Op struct {
 	// Target / Update describe an update.
 	Target *store.Target `json:",omitempty"`
 	Update *store.Update `json:",omitempty"`
+	// Direct hands a specification that carries execution state to Create as it is; otherwise (default) the pristine
+	// image is created and brought to that state by Update* calls.
+	Direct bool `json:",omitempty"`
 	// Fresh makes an update use an object from a fresh Read instead of the one retained from an earlier Read.
 	Fresh bool `json:",omitempty"`
 	// N numbers the unknown ids.
@@ -93,6 +96,7 @@ func genProgram(t *rapid.T) Program {
 		return out
 	}
 	var unknown uint32
+	failing := 0
 	// program length <= 40 operations, skewed towards short programs (many small cases beat few large ones); the
 	// cosmos fake re-writes every document of a plan on each patch operation, so its programs are kept shorter
 	maxPlans, cfg := c13MaxPlans, store.DefaultCfg
@@ -105,7 +109,9 @@ func genProgram(t *rapid.T) Program {
 	for i := 0; i < n; i++ {
 		live := liveSlots()
 		kind := "update"
-		switch r := rapid.IntRange(0, 19).Draw(t, "opkind"); {
+		switch r := rapid.IntRange(0, 20).Draw(t, "opkind"); {
+		case r == 20:
+			kind = "createFailing"
 		case len(live) == 0:
 			kind = "create"
 			if r >= 17 {
@@ -139,7 +145,13 @@ func genProgram(t *rapid.T) Program {
 			cfg.WithState = rapid.IntRange(0, 3).Draw(t, "withstate") == 3
 			spec := cfg.Plan(t, fmt.Sprintf("p%d", len(slots)), len(slots)+1)
 			slots = append(slots, gslot{spec: &spec, live: true})
-			p.Ops = append(p.Ops, Op{Kind: kind, Slot: len(slots) - 1, Spec: &spec})
+			op := Op{Kind: kind, Slot: len(slots) - 1, Spec: &spec}
+			if cfg.WithState {
+				// a plan with execution state is normally stored the way the engine does it: Create of the pristine plan,
+				// then one Update* per object; a minority is handed to Create directly (tolerated when refused)
+				op.Direct = rapid.IntRange(0, 3).Draw(t, "direct") == 3
+			}
+			p.Ops = append(p.Ops, op)
 		case "update":
 			s := live[rapid.IntRange(0, len(live)-1).Draw(t, "slot")]
 			tgs := store.Targets(*slots[s].spec)
@@ -156,6 +168,21 @@ func genProgram(t *rapid.T) Program {
 		case "readUnknown":
 			unknown++
 			p.Ops = append(p.Ops, Op{Kind: kind, N: unknown})
+		case "createFailing":
+			// a plan that cannot be stored: one request cannot be encoded (a channel behind an `any` field, NaN, ...)
+			failing++
+			pcfg := store.DefaultCfg
+			pcfg.Poison, pcfg.MaxBlocks, pcfg.Plain = true, 2, true
+			spec := pcfg.Plan(t, "bad", 100+failing)
+			var acts []store.Target
+			for _, tg := range store.Targets(spec) {
+				if tg.Kind == "action" {
+					acts = append(acts, tg)
+				}
+			}
+			tg := acts[rapid.IntRange(0, len(acts)-1).Draw(t, "badpos")]
+			store.ResolveActionSpec(&spec, tg).Poison = rapid.IntRange(store.PoisonChan, store.PoisonLast).Draw(t, "badkind")
+			p.Ops = append(p.Ops, Op{Kind: kind, Slot: -1, Spec: &spec})
 		case "reopen":
 			p.Ops = append(p.Ops, Op{Kind: kind})
 		}
@@ -185,14 +212,10 @@ func (r *c13run) fail(rule, format string, a ...any) {
 
 func (r *c13run) failed() bool { return len(r.res.Violations) > 0 || r.res.Skip }
 
-// cmpOpt: on the cosmos fake the order of actions is not judged once the plan has been updated: the fake's query pager
-// ignores "ORDER BY c.pos" and its PatchItem re-inserts all documents of the plan in map-iteration order, so the order it
-// returns afterwards is an artefact of the fake, not of the vault code.
+// cmpOpt: on the cosmos fake the order of actions is never judged (see cmpOptFor): the fake's query pager ignores
+// "ORDER BY c.pos"; what it returns is the insertion order of Create's batch and, after a patch, map-iteration order.
 func (r *c13run) cmpOpt(pm *store.PlanModel) store.CmpOpt {
-	if r.arm == store.ArmCosmosFake && pm.Updates > 0 {
-		return store.CmpOpt{ActionsAnyOrder: true}
-	}
-	return store.CmpOpt{}
+	return cmpOptFor(r.arm)
 }
 
 // verifyAll reads every plan that was ever created. Clause: "reading a plan returns exactly what was last written" for
@@ -234,7 +257,7 @@ func (r *c13run) verifyAll(step int, after string) {
 		if pm.Updates > 0 && (len(pm.Spec.Blocks) >= 2 || pm.MaxAttempts >= 2) {
 			r.nt = true
 		}
-		if r.arm == store.ArmCosmosFake && pm.Updates > 0 {
+		if r.arm == store.ArmCosmosFake {
 			vprop.Count("cosmos_fake_action_order_unjudged_reads", 1)
 		}
 		for _, s := range r.slots {
@@ -307,19 +330,76 @@ func checkProgram(c Program) (res vprop.Result) {
 				continue
 			}
 			classifySpec(op.Spec, mark)
-			plan := store.Build(*op.Spec)
+			full := *op.Spec
+			stateful := !store.IsPristine(full)
+			created := full
+			if stateful && !op.Direct {
+				created = store.Pristine(full)
+			}
+			plan := store.Build(created)
 			var cerr error
 			if guard(&res, "C13", arm, fmt.Sprintf("Create at step %d", i), func() { cerr = h.Vault.Create(ctx, plan) }) {
 				return res
 			}
+			if cerr != nil && stateful && op.Direct {
+				// The statement gives Create "the full definition" and leaves status, times, reason and attempts to "object
+				// updates": a vault may refuse a plan that already carries execution state. Nothing was written; the plan
+				// never enters the model and later operations on its slot are skipped.
+				mark("create_nonpristine_refused")
+				continue
+			}
 			if cerr != nil {
-				// the plan is a valid stored-plan image (ids, states, >= 1 block/sequence/action): Create must take it
-				r.fail("create-error", "step %d: Create of a valid plan failed: %v", i, cerr)
+				// a pristine plan as Submit creates it (ids, NotStarted states, >= 1 block/sequence/action): Create must take it
+				r.fail("create-error", "step %d: Create of a valid pristine plan failed: %v", i, cerr)
 				return res
 			}
-			pm := r.model.Create(*op.Spec)
-			r.slots[op.Slot] = &c13slot{pm: pm}
+			pm := r.model.Create(created)
+			sl := &c13slot{pm: pm}
+			r.slots[op.Slot] = sl
 			vprop.Count("creates:"+arm, 1)
+			switch {
+			case stateful && op.Direct:
+				mark("create_with_state_direct")
+			case stateful:
+				// bring the stored plan to the generated state the way the engine does: Update* object by object
+				mark("create_then_updates")
+				var got *workflow.Plan
+				var rerr error
+				if guard(&res, "C13", arm, fmt.Sprintf("Read after Create at step %d", i), func() { got, rerr = h.Vault.Read(ctx, pm.Plan.ID) }) {
+					return res
+				}
+				if rerr != nil || got == nil {
+					r.fail("read-error", "step %d: Read of stored plan %s failed: %v", i, pm.Plan.ID, rerr)
+					return res
+				}
+				sl.live = got
+				for _, tg := range store.Targets(full) {
+					u := store.UpdateFor(&full, tg)
+					if u.State == (store.StateSpec{}) && u.Reason == 0 && len(u.Attempts) == 0 {
+						continue // nothing to write for this object
+					}
+					want := store.Resolve(pm.Plan, tg)
+					obj := store.FindByID(sl.live, store.ObjectID(want))
+					if want == nil || obj == nil || isNilObject(obj) {
+						break // the read that follows reports what is wrong with the stored plan
+					}
+					plugin := -1
+					if a := store.ResolveActionSpec(&full, tg); a != nil {
+						plugin = a.Plugin
+					}
+					u.ApplyTo(obj, plugin)
+					var uerr error
+					if guard(&res, "C13", arm, fmt.Sprintf("Update(%s) after Create at step %d", tg, i), func() { uerr = callUpdate(ctx, h.Vault, obj) }) {
+						return res
+					}
+					if uerr != nil {
+						r.fail("update-error:"+tg.Kind, "step %d: Update of %s of a stored plan failed: %v", i, tg, uerr)
+						return res
+					}
+					pm.Apply(tg, u)
+					vprop.Count("updates:"+arm, 1)
+				}
+			}
 		case "update":
 			s := r.slots[op.Slot]
 			if s == nil || s.pm.Deleted || op.Target == nil || op.Update == nil {
@@ -401,6 +481,33 @@ func checkProgram(c Program) (res vprop.Result) {
 				return res
 			}
 			mark("read_unknown")
+		case "createFailing":
+			// Clause: "Reading an id that was never created ... returns an error and never an empty plan." A plan whose
+			// Create returned an error was never created. (That nothing of it is left behind is C14's clause.)
+			if op.Spec == nil {
+				mark("skipped_op")
+				continue
+			}
+			bad := store.Build(*op.Spec)
+			badID := bad.ID
+			var cerr error
+			if guard(&res, "C13", arm, fmt.Sprintf("Create (unencodable request) at step %d", i), func() { cerr = h.Vault.Create(ctx, bad) }) {
+				return res
+			}
+			if cerr == nil {
+				mark("create_unencodable_accepted") // a vault may find a way to store it; what it reads back is not modelled
+				continue
+			}
+			mark("failed_create")
+			var got *workflow.Plan
+			var rerr error
+			if guard(&res, "C13", arm, fmt.Sprintf("Read after failed Create at step %d", i), func() { got, rerr = h.Vault.Read(ctx, badID) }) {
+				return res
+			}
+			if rerr == nil {
+				r.fail("read-after-failed-create:no-error", "step %d: Create of plan %s failed (%v), yet Read of that id returns no error (plan=%s)", i, badID, cerr, planSummary(got))
+				return res
+			}
 		case "reopen":
 			if arm != store.ArmSqliteFile {
 				mark("skipped_op")
@@ -444,10 +551,10 @@ func isNilObject(o workflow.Object) bool {
 }
 
 func classifySpec(ps *store.PlanSpec, mark func(string)) {
-	if ps.State.Status != 0 || ps.State.Start != 0 || ps.Reason != 0 {
-		mark("create_with_state")
-	} else {
+	if store.IsPristine(*ps) {
 		mark("create_pristine")
+	} else {
+		mark("create_with_state")
 	}
 	if ps.MetaNil {
 		mark("meta_nil")
